@@ -125,7 +125,7 @@ def run_one(rel, mut, props):
             if p.returncode != 0:
                 return dict(mut, status="invalid")
         env = dict(os.environ)
-        env.update(VERIF_REPO=str(repo), VERIF_OUT=str(tmp / "out"), VERIF_EVIDENCE_DIR=str(tmp / "ev"), VERIF_NO_SELFTEST="1")
+        env.update(VERIF_REPO=str(repo), VERIF_OUT=str(tmp / "out"), VERIF_EVIDENCE_DIR=str(tmp / "ev"), VERIF_NO_SELFTEST="1", VERIF_NO_DELEGATE=os.environ.get("VERIF_NO_DELEGATE", "1"))
         codes = {}
         rules = []
         for pid in props:
